@@ -1398,7 +1398,23 @@ class Enumerated(Type):
     def format_root_indexes(self):
         return format_or(sorted(list(self.root_index_to_data)))
 
+    def format_names(self):
+        names = list(self.root_data_to_index)
+
+        if self.additions_data_to_index is not None:
+            names += list(self.additions_data_to_index)
+
+        return format_or(sorted(names))
+
     def encode(self, data, encoder):
+        if data not in self.root_data_to_index:
+            if (self.additions_data_to_index is None
+                    or data not in self.additions_data_to_index):
+                raise EncodeError(
+                    "Expected enumeration value {}, but got '{}'.".format(
+                        self.format_names(),
+                        data))
+
         if self.additions_index_to_data is None:
             index = self.root_data_to_index[data]
             encoder.append_non_negative_binary_integer(index,
